@@ -89,9 +89,9 @@ func (l *logListenerImpl) AddFilter(category string, level LogLevel) error {
 		return fmt.Errorf("invalid regexp (%s): %s", category, err)
 	}
 	l.filtersMutex.Lock()
-	defer l.filtersMutex.Unlock()
 	l.filters[category] = level
 	l.filtersReg[category] = reg
+	l.filtersMutex.Unlock()
 	l.manager.UpdateFilters()
 	return nil
 }
